@@ -21,6 +21,7 @@ macro_rules! instances {
 crate::amv::common::real_map_scenarios!();
 
 instances! {
+    c01_l_fww_min => s_fww_min();
     c01_l_first_writer_wins => m_first_writer_wins();
     c01_l_two_ids => m_two_ids();
     c01_l_type_separation => m_type_separation();
